@@ -213,6 +213,22 @@ fn worker(n: usize, shared: Arc<crate::mon_c12::Fixture>, sets: &mut Sets, st: &
                             }
                             seen.insert((r.clone(), v.clone()));
                             prev.insert(r.clone(), v.clone());
+                            // ... and so must each of its components: the point and the ML-KEM key
+                            for (what, c) in [("point", &k.h), ("ML-KEM encapsulation key", &k.ek)] {
+                                let mut tagged = vec![what.len() as u8];
+                                tagged.extend_from_slice(c);
+                                let mut rt = r.clone();
+                                rt.push(0xfe);
+                                if !c.is_empty() && !seen.insert((rt, tagged)) {
+                                    st.findings.push(Finding {
+                                        prop: "C16".into(),
+                                        signature: format!("C16:rekey-republishes-old-component:{}", what.split(' ').next().unwrap_or("")),
+                                        detail: format!("right {:02x?}: the {what} published after a rekey had been published before for that right", r),
+                                        replay: json!({"monitor": "c16"}),
+                                    });
+                                }
+                            }
+                            st.bump("published_components_checked_after_rekey");
                             let mut t = r.clone();
                             t.push(0xff);
                             t.extend_from_slice(&k.h);
